@@ -231,7 +231,7 @@ macro_rules! row_tc {
         }
     };
 }
-// @harness name=c05_row_tc11 props=C05,C11:thorough tier=quick cap=1500
+// @harness name=c05_row_tc11 props=C05,C11 tier=quick cap=1500
 // row step: any even DF17 TC11 squitter on an arbitrary row, -U/-R symbolic, position decode stubbed (no fix)
 row_tc!(c05_row_tc11, 11, 0);
 // @harness name=c05_row_tc9 props=C05,C11:thorough tier=thorough cap=900
